@@ -163,47 +163,43 @@ func MarshalOrdered(m *orderedmap.OrderedMap[string, any]) ([]byte, error) {
 		}
 		buf.Write(keyBytes)
 		buf.WriteByte(':')
-
-		switch v := el.Value.(type) {
-		case *orderedmap.OrderedMap[string, any]:
-			valBytes, err := MarshalOrdered(v)
-			if err != nil {
-				return nil, err
-			}
-			buf.Write(valBytes)
-		case []any:
-			// Handle arrays of maps
-			buf.WriteByte('[')
-			for j, item := range v {
-				if j > 0 {
-					buf.WriteByte(',')
-				}
-				switch vv := item.(type) {
-				case *orderedmap.OrderedMap[string, any]:
-					valBytes, err := MarshalOrdered(vv)
-					if err != nil {
-						return nil, err
-					}
-					buf.Write(valBytes)
-				default:
-					valBytes, err := json.Marshal(vv)
-					if err != nil {
-						return nil, err
-					}
-					buf.Write(valBytes)
-				}
-			}
-			buf.WriteByte(']')
-		default:
-			valBytes, err := json.Marshal(v)
-			if err != nil {
-				return nil, err
-			}
-			buf.Write(valBytes)
+		if err := marshalValue(&buf, el.Value); err != nil {
+			return nil, err
 		}
 	}
 	buf.WriteByte('}')
 	return buf.Bytes(), nil
+}
+
+// marshalValue writes one value; ordered maps and arrays (at any nesting depth) are written element by element
+// so that key order is kept and nested documents are not lost.
+func marshalValue(buf *bytes.Buffer, value any) error {
+	switch v := value.(type) {
+	case *orderedmap.OrderedMap[string, any]:
+		valBytes, err := MarshalOrdered(v)
+		if err != nil {
+			return err
+		}
+		buf.Write(valBytes)
+	case []any:
+		buf.WriteByte('[')
+		for j, item := range v {
+			if j > 0 {
+				buf.WriteByte(',')
+			}
+			if err := marshalValue(buf, item); err != nil {
+				return err
+			}
+		}
+		buf.WriteByte(']')
+	default:
+		valBytes, err := json.Marshal(v)
+		if err != nil {
+			return err
+		}
+		buf.Write(valBytes)
+	}
+	return nil
 }
 
 func FileExists(filename string) bool {
